@@ -898,21 +898,43 @@ var Faults = []Fault{
 		return true
 	}},
 	{"impossible-spread", "PossibleFragmentSpreads", func(c *FCtx) bool {
-		s, ok := c.pick(c.sites(), func(s selSite) bool { return s.parent != nil && s.parent.Kind == "type" })
+		// any composite parent (object, interface, union) and any composite condition whose possible objects do not meet the
+		// parent's: that includes interfaces nothing implements (their set is empty, so they fit nowhere)
+		s, ok := c.pick(c.sites(), func(s selSite) bool { return s.parent != nil && s.parent.IsComposite() })
 		if !ok {
 			return false
+		}
+		mine := map[string]bool{}
+		for _, n := range c.Mg.PossibleObjects(s.parent.Name) {
+			mine[n] = true
 		}
 		var other []string
 		for _, n := range c.Mg.TypeNames {
 			t := c.Mg.Types[n]
-			if t.Kind == "type" && n != s.parent.Name && n[0] != '_' {
+			if !t.IsComposite() || n == s.parent.Name || n[0] == '_' {
+				continue
+			}
+			meets := false
+			for _, o := range c.Mg.PossibleObjects(n) {
+				if mine[o] {
+					meets = true
+				}
+			}
+			if !meets {
 				other = append(other, n)
 			}
 		}
 		if len(other) == 0 {
 			return false
 		}
-		*s.list = append(*s.list, &m.Sel{Kind: m.SInline, TypeCond: other[c.R.Intn(len(other))], Sel: []*m.Sel{{Kind: m.SField, Name: "__typename"}}})
+		tc := other[c.R.Intn(len(other))]
+		body := []*m.Sel{{Kind: m.SField, Name: "__typename"}}
+		if c.R.Chance(1, 3) {
+			c.Doc.Defs = append(c.Doc.Defs, &m.Def{IsFragment: true, Name: "Impossible", TypeCond: tc, Sel: body})
+			*s.list = append(*s.list, &m.Sel{Kind: m.SSpread, Name: "Impossible"})
+			return true
+		}
+		*s.list = append(*s.list, &m.Sel{Kind: m.SInline, TypeCond: tc, Sel: body})
 		return true
 	}},
 	{"duplicate-operation-name", "UniqueOperationNames", func(c *FCtx) bool {
@@ -1103,7 +1125,32 @@ var Faults = []Fault{
 		f := func(n string, sub ...*m.Sel) *m.Sel { return &m.Sel{Kind: m.SField, Name: n, Sel: sub} }
 		deep := f("fields", f("type", f("fields", f("type", f("fields", f("name"))))))
 		c.nameAll()
-		switch c.R.Intn(5) {
+		switch c.R.Intn(7) {
+		case 5, 6:
+			// one fragment with a single counted list field, spread at depth 0 (harmless) and at depth 2 (one too many), in
+			// either order: a memo of "this fragment was fine" must remember the depth it was fine at
+			sp := func() *m.Sel { return &m.Sel{Kind: m.SSpread, Name: "OneLevel"} }
+			lists := []string{"fields", "interfaces", "possibleTypes", "inputFields"}
+			l1, l2, l3 := lists[c.R.Intn(4)], lists[c.R.Intn(2)+1], lists[c.R.Intn(4)]
+			var inner *m.Sel
+			if l3 == "fields" || l3 == "inputFields" {
+				inner = f(l3, f("name"))
+			} else {
+				inner = f(l3, f("kind"))
+			}
+			var deepPart *m.Sel
+			if l1 == "fields" || l1 == "inputFields" {
+				deepPart = f(l1, f("type", f(l2, sp())))
+			} else {
+				deepPart = f(l1, f(l2, sp()))
+			}
+			body := []*m.Sel{sp(), deepPart}
+			if c.R.Bool() {
+				body = []*m.Sel{deepPart, sp()}
+			}
+			c.Doc.Defs = append(c.Doc.Defs,
+				&m.Def{IsFragment: true, Name: "OneLevel", TypeCond: "__Type", Sel: []*m.Sel{f("name"), inner}},
+				&m.Def{Op: "query", Name: "Deep", Sel: []*m.Sel{f("__schema", f("types", body...))}})
 		case 3, 4:
 			// a random chain of three counted list fields with decoy siblings (fields, inline fragments, uncounted links)
 			// before and after every link
@@ -1347,6 +1394,41 @@ func init() {
 			s.sel().Sel = nil
 			return true
 		}},
+		Fault{"near-miss-field-of-possible-type", "FieldsOnCorrectType", func(c *FCtx) bool {
+			// a field that the abstract parent does not define but several of its possible types (and their interfaces) do:
+			// the message suggests inline fragments on those types, ordered by how many possible types each covers
+			s, ok := c.pick(c.sites(), func(s selSite) bool {
+				return s.parent != nil && (s.parent.Kind == "union" || s.parent.Kind == "interface")
+			})
+			if !ok {
+				return false
+			}
+			count := map[string]int{}
+			for _, on := range c.Mg.PossibleObjects(s.parent.Name) {
+				for _, f := range c.Mg.Types[on].Fields {
+					if s.parent.Field(f.Name) == nil {
+						count[f.Name]++
+					}
+				}
+			}
+			var names []string
+			for n, k := range count {
+				if k >= 2 {
+					names = append(names, n)
+				}
+			}
+			if len(names) == 0 {
+				for n := range count {
+					names = append(names, n)
+				}
+			}
+			if len(names) == 0 {
+				return false
+			}
+			sortStrings(names)
+			*s.list = append(*s.list, &m.Sel{Kind: m.SField, Alias: "fromPossibleType", Name: names[c.R.Intn(len(names))]})
+			return true
+		}},
 		Fault{"near-miss-argument", "KnownArgumentNames", func(c *FCtx) bool {
 			s, ok := c.pick(c.fieldSites(true), func(s selSite) bool { return len(c.fieldDef(s.parent, s.sel().Name).Args) > 0 })
 			if !ok {
@@ -1421,4 +1503,12 @@ func init() {
 			return false
 		}},
 	)
+}
+
+func sortStrings(l []string) {
+	for i := 1; i < len(l); i++ {
+		for j := i; j > 0 && l[j] < l[j-1]; j-- {
+			l[j], l[j-1] = l[j-1], l[j]
+		}
+	}
 }
